@@ -10,6 +10,22 @@ TEXT = {
    text='is_syntax_valid is proved to report a violation exactly when the X12 definition of the P/R/E/C/L note says so, for every note of 2..6 positions (any positions 1..99), every presence pattern and every segment length, against an abstract read-only Segment; _split_syntax is proved to parse the note text. The shipped maps are scanned exhaustively each run: every <syntax> has 2..6 two-digit positions (max seen: 4), so the case split is complete for the configuration.',
    note='Trusted: semantics model; abstract Segment (get_value/__len__ are pure functions of the receiver - their concrete meaning is the C17 contract); the routing of a violation to element error code 10 (E) / 2 (others) in segment_if.is_valid is not yet under contract (listed as unverified caller). Ground evaluation is finite and exhaustive, not a proof.',
    ref='5 C14'),
+ 'C04': dict(level='proof', technique='contract-based deductive verification (pyvc: AST->SMT, z3/cvc5): step simulation against an executable recount spec, loop invariants with ghost state',
+   text='X12Base._parse_segment, X12Reader._parse_segment and X12Reader.cleanup are proved, for every reader state and every segment, to update the envelope state and to emit envelope errors (isa 025/024/001/021/023, gs 6/3/4/5, st 23/3/4/2, seg HL1/HL2/LX) exactly as an independent recount written from the statement does (properly placed segments), to emit at least one envelope error for every misplaced trailer, and to raise nothing but the documented X12Error. The HL while-loop and the cleanup for-loop are cut at inductive invariants (ghost sequences).',
+   note='Trusted: semantics model; abstract Segment view (seg_id, length, elements) read through reference designators per the C17 contract; int() on texts of unknown length is an uninterpreted deterministic function with int(str(n))==n; sequence lemma instances (snoc / prefix-snoc) and the fold/filter-map homomorphism axioms (quantified, true of the python definitions). Whole-sequence claim (any non-nested arrangement draws an error) is composed informally from the per-step obligations (DESIGN 5 C04). Known finding K3 (misplaced HEADERS draw no error) is excluded and listed.',
+   ref='5 C04'),
+ 'C11': dict(level='proof', technique='contract-based deductive verification (pyvc): inductive read-back invariant over a ghost output log (seq_fold), z3/cvc5',
+   text='X12Writer.Write and X12Writer.Close (with _popToLoop, _close_*, _write_segment, _write_isa_segment and X12Base._parse_segment inlined from the real source) are proved to preserve the invariant that the reader\'s own recount over everything written so far shows no envelope discrepancy and agrees with the writer\'s counters, that a trailer of kind K closes through K, that non-trailer segments are appended unchanged, and that Close from any reachable state leaves an empty stack and a clean read-back. Stack depth 0..3 is a complete case split for well-nested sequences.',
+   note='Assumed contract: X12Writer._get_trailer_segment (depends on Segment text parsing, C01) - covered by a BOUNDED native stand-in (grid of delimiters/kinds/counts/ids), not proved. Output is modelled at the level of segment views: the text layer (format then parse) is C01. Trusted: semantics model, abstract Segment view, text-output model (write appends), fold axioms, int(str(n))==n.',
+   ref='5 C11'),
+ 'C16': dict(level='other', technique='exhaustive ground evaluation of the representation invariants assumed by the other contracts, through the real loader',
+   text='Every index entry, every map file and every one of the ~24k nodes of the shipped configuration is checked each run: files load, usages/repeats/positions/seq well formed, data elements and external code sets defined, same-position siblings distinguishable, index keys unambiguous, nodes addressable by their own path (getnodebypath / getnodebypath2), paths unique, explicit map directory == packaged resources.',
+   note='Finite and exhaustive, no SMT: ground evaluation, not proof. Ten listed known findings (path addressing of elements/composites, 997 AK2 loop ids, duplicate CTX, overlapping qualifiers, 841 map, undefined data elements) are reported as KNOWN-FINDING with exact node counts; any node beyond them is a VIOLATION.',
+   ref='5 C16'),
+ 'C18': dict(level='other', technique='modifies-frame / determinism obligations discharged by conservative syntactic analysis of the real AST (contract frames), differential native replay',
+   text='For every function of the package: no write to module or class state, no mutation of module/class level mutables, no mutated (or escaping-and-mutated) mutable default argument, no result cache, time/random only in the three documented places, no set iteration order reaching a value, no reflection. One obligation per (rule, module); findings outside a reasoned allow-list refute it; hash-order findings are replayed natively under different PYTHONHASHSEED.',
+   note='Syntactic and name based: sound only in the absence of reflection (checked) and conservative (false alarms possible, handled by the reasoned allow-list in contracts/frames.py). Does not prove semantic independence of histories; it proves the absence of the mechanisms by which one call could influence another.',
+   ref='5 C18'),
 }
 NA = [
   {"property_id": "C02", "reason": "completeness of the map walker over the language generated by each map: no per-function contract within reach states 'conformant document' without restating the walker (DESIGN.md section 6)"},
